@@ -63,6 +63,45 @@ def reference_steps(key):
     return steps
 
 
+def _rules_to_rewrite(concrete, rnd):
+    """The abstract rule f1 of Gettsim.tla stands for a handful of real rules that the later computes depend on: branching
+    rules among the ancestors of the target sets, with and without a policy_info decoration."""
+    import inspect
+
+    import networkx as nx
+
+    import gs
+    import popgen
+
+    date = concrete["dates"]["d1"]
+    df = gs.build_population(popgen.compose([popgen.CANON["family_2"]], date, random.Random(1)), date)
+    ok, args = gs.all_nodes_for(date, tuple(df.columns))
+    g = nx.DiGraph()
+    for n, a in args.items():
+        for x in a:
+            g.add_edge(x, n)
+    want = set(concrete["targets"]["T1"]) | set(concrete["targets"]["T2"])
+    anc = set()
+    for t in want:
+        if t in g:
+            anc |= nx.ancestors(g, t) | {t}
+    fns = gs.env(date)[1]
+    deco, plain = [], []
+    for n in sorted(anc):
+        f = fns.get(n)
+        if f is None:
+            continue
+        try:
+            src = inspect.getsource(f)
+        except (OSError, TypeError):
+            continue
+        if " if " not in src and "if " not in src:
+            continue
+        (deco if getattr(f, "__info__", None) else plain).append(n)
+    out = rnd.sample(deco, min(4, len(deco))) + rnd.sample(plain, min(2, len(plain)))
+    return sorted(out) or ["grundr_bew_zeiten_avg_entgeltp"]
+
+
 def run(tier):
     chk = Check("C14", tier, LEVEL)
     rnd = random.Random(chk.seed * 65537 + 14)
@@ -121,6 +160,8 @@ def run(tier):
     avail = both[0] & both[1]
     concrete["targets"]["T1"] = [t for t in ["eink_st_y_sn", "soli_st_y_sn", "kindergeld_m", "zu_verst_eink_y_sn"] if t in avail]
     concrete["targets"]["T2"] = [t for t in ["sozialv_beitr_arbeitnehmer_m", "ges_rentenv_beitr_arbeitnehmer_m", "arbeitsl_geld_m", "ges_rente_m", "kindergeld_m"] if t in avail]
+    concrete["rules"]["f1"] = _rules_to_rewrite(concrete, rnd)
+    chk.notes["rewritten_rules"] = concrete["rules"]["f1"]
     hists = [concretise(h) for h in chosen]
     keys = {}
     for h in hists:
